@@ -63,6 +63,7 @@ Definition port_of (op : opk) (ser : nat) : nat :=
   | OZip => ser
   | OTakeUntil | OSkipUntil | OSample => ser        (* 0 = trigger, 1 = source *)
   | OResume => ser                                  (* 0 = source, 1 = the observable the resume function returned (ASubscribe .. 1) *)
+  | OFlatMap _ => if Nat.eqb ser 0 then 0 else 1    (* 0 = source, 1 = every inner observable (ASubscribe .. 1) *)
   | _ => 0
   end.
 
@@ -133,6 +134,24 @@ Fixpoint spec_resume (cur : nat) (l : list (nat * ev)) : list ev :=
         | Er x => if Nat.eqb cur 0 then spec_resume 1 r else [Er x]
         end
       else spec_resume cur r
+  end.
+
+(* flat_map: source 0 is subscribed at the start; its k-th item subscribes inner observable number k (serial k, counted
+   from 1), so `n` - the number of sources subscribed so far - grows; the items of every inner observable pass in arrival
+   order, the first error of anyone ends it, complete when the source and every inner observable subscribed so far have
+   completed.  What an inner observable "emits" before it was subscribed does not exist (serial >= n: not heard). *)
+Fixpoint spec_flat_map_ser (n : nat) (closed : list nat) (l : list (nat * ev)) : list ev :=
+  match l with
+  | [] => []
+  | (j, e) :: r =>
+      if here n closed j then
+        match j, e with
+        | 0, Nx _ => spec_flat_map_ser (S n) closed r
+        | _, Nx v => Nx v :: spec_flat_map_ser n closed r
+        | _, Er x => [Er x]
+        | _, Co => if all_in n (j :: closed) then [Co] else spec_flat_map_ser n (j :: closed) r
+        end
+      else spec_flat_map_ser n closed r
   end.
 
 (* merge of n sources: every item in arrival order; the first error ends it; complete when all n have completed *)
